@@ -15,6 +15,9 @@
 //	syncpool   sync.Pool literals and Get/Put (object identity depends on GC and on the P)
 //	hashseed   hash/maphash (seed drawn per process)
 //	ptrorder   uintptr(unsafe.Pointer(..)) (addresses as numbers)
+//	sharedobj  platform builders (emusystem, timingconfig): a reference-typed object created before a loop and passed
+//	           into every iteration, or a closure that memoises into a captured variable (one mutable object handed
+//	           to several components)
 //
 // Types are resolved exactly: `go list -export -deps -json` provides the export
 // data of every dependency (compiled by the same toolchain), the listed packages
@@ -288,8 +291,102 @@ func walkFile(fset *token.FileSet, info *types.Info, dir string, af *ast.File) [
 		out = append(out, Site{Kind: kind, Pkg: dir, File: fname, Func: fn, Expr: expr, Type: typ,
 			Line: fset.Position(n.Pos()).Line})
 	}
+	builderPkg := strings.HasPrefix(dir, "amd/samples/runner/emusystem") || strings.HasPrefix(dir, "amd/samples/runner/timingconfig")
+	refLike := func(t types.Type) bool {
+		if t == nil {
+			return false
+		}
+		switch t.Underlying().(type) {
+		case *types.Pointer, *types.Interface, *types.Map, *types.Signature, *types.Chan:
+			return true
+		}
+		return false
+	}
+	// sharedobj (platform builders only):
+	//  (a) a reference-typed object that exists before a loop and is passed as a call argument in every iteration
+	//      (one object handed to several components);
+	//  (b) a function literal that assigns to a variable it captures (memoisation: later calls hand out the same object).
+	sharedInLoop := func(fn string, body *ast.BlockStmt, loop ast.Node) {
+		seen := map[string]bool{}
+		ast.Inspect(body, func(n ast.Node) bool {
+			call, ok := n.(*ast.CallExpr)
+			if !ok {
+				return true
+			}
+			for _, a := range call.Args {
+				var root *ast.Ident
+				switch e := a.(type) {
+				case *ast.Ident:
+					root = e
+				case *ast.SelectorExpr:
+					r := e.X
+					for {
+						if se, ok := r.(*ast.SelectorExpr); ok {
+							r = se.X
+							continue
+						}
+						break
+					}
+					root, _ = r.(*ast.Ident)
+				}
+				if root == nil {
+					continue
+				}
+				tv, ok := info.Types[a]
+				if !ok || !refLike(tv.Type) || tv.IsNil() {
+					continue
+				}
+				obj := info.Uses[root]
+				if obj == nil || obj.Pkg() == nil {
+					continue
+				}
+				if _, isVar := obj.(*types.Var); !isVar {
+					continue
+				}
+				if obj.Pos() >= loop.Pos() && obj.Pos() <= loop.End() {
+					continue // declared inside the loop: one per iteration
+				}
+				txt := exprText(fset, a)
+				if seen[txt] {
+					continue
+				}
+				seen[txt] = true
+				add("sharedobj", fn, a, "loop passes "+txt, tv.Type.String())
+			}
+			return true
+		})
+	}
 	visit := func(fn string, root ast.Node) {
 		ast.Inspect(root, func(n ast.Node) bool {
+			if builderPkg {
+				switch x := n.(type) {
+				case *ast.ForStmt:
+					sharedInLoop(fn, x.Body, x)
+				case *ast.RangeStmt:
+					sharedInLoop(fn, x.Body, x)
+				case *ast.FuncLit:
+					ast.Inspect(x.Body, func(m ast.Node) bool {
+						as, ok := m.(*ast.AssignStmt)
+						if !ok || as.Tok != token.ASSIGN {
+							return true
+						}
+						for _, l := range as.Lhs {
+							id, ok := l.(*ast.Ident)
+							if !ok {
+								continue
+							}
+							obj, _ := info.Uses[id].(*types.Var)
+							if obj == nil || obj.IsField() || obj.Pkg() == nil {
+								continue
+							}
+							if obj.Pos() < x.Pos() || obj.Pos() > x.End() {
+								add("sharedobj", fn, as, "closure assigns captured "+id.Name, obj.Type().String())
+							}
+						}
+						return true
+					})
+				}
+			}
 			switch x := n.(type) {
 			case *ast.RangeStmt:
 				if tv, ok := info.Types[x.X]; ok && tv.Type != nil {
@@ -543,6 +640,8 @@ func kindCtor(k string) string {
 		return "KHashSeed"
 	case "ptrorder":
 		return "KPtrOrder"
+	case "sharedobj":
+		return "KSharedObj"
 	}
 	fatal("unknown kind %s", k)
 	return ""
